@@ -160,11 +160,17 @@ def apply_damage(r, g, shares, raws, gen, other_raws):
     r.shuffle(pool)
     ndel = r.choice([0, 0, 0, 1, 1, 1, 1, 2, 2, max(0, len(pool) - gen.k), max(0, len(pool) - gen.k), max(0, len(pool) - gen.k + 1), len(pool)])
     ndel = min(ndel, len(pool))
+    ndam_pick = r.choice([0, 0, 1, 1, 1, 1, 2, 2, 3, len(pool)])
+    if r.random() < 0.7:
+        # most histories stay recoverable: at least k intact shares remain
+        spare = max(0, len(pool) - gen.k)
+        ndel = min(ndel, spare)
+        ndam_pick = min(ndam_pick, spare - ndel)
     for s in pool[:ndel]:
         g.delete_share(s)
         desc.append(("delete", s.shnum))
     rest = pool[ndel:]
-    ndam = min(len(rest), r.choice([0, 0, 1, 1, 1, 1, 2, 2, 3, len(rest)]))
+    ndam = min(len(rest), ndam_pick)
     for s in rest[:ndam]:
         raw = raws[(s.server, s.shnum)]
         head, pay, leases = C.split_container(raw)
@@ -298,7 +304,8 @@ def history(ctx, i, jobs):
         after = disk_state(g, cap)
         case_r = dict(case, repair_verify=verify)
         for key, raw in before.items():
-            if valid[key] and after.get(key) != raw:
+            # the share itself (container payload); the lease records behind it are renewed by the repairer's upload
+            if valid[key] and (key not in after or C.split_container(after[key])[1] != C.split_container(raw)[1]):
                 ctx.oracle_fail("repair-altered-existing-good-share", "share %d on server %d was good before check_and_repair and is %s after" % (
                     key[1], key[0], "gone" if key not in after else "different"), case=case_r)
         new = sorted(key for key in after if key not in before)
@@ -437,14 +444,14 @@ def run(ctx):
     for name in ("verifier-verdict-vs-model", "health-decision-vs-model", "post-repair-decision-vs-model", "ueb-consistency-vs-model"):
         ctx.correspondence(name)
     jobs = []
-    for i in range(ctx.n(70, 700)):
+    for i in range(ctx.n(60, 700)):
         history(ctx, i, jobs)
     for i in range(ctx.n(15, 60)):
         inconsistent_ueb(ctx, i, jobs)
     # evaluate the model: group the per-file jobs so that a handful of coqc processes run concurrently
     groups = []
-    for j in range(0, len(jobs), 6):
-        chunk = jobs[j:j + 6]
+    for j in range(0, len(jobs), 10):
+        chunk = jobs[j:j + 10]
         groups.append(("\n".join(p for p, _t, _i in chunk), [t for _p, ts, _i in chunk for t in ts], [x for _p, _t, inf in chunk for x in inf]))
     results = coq_check_parallel(ctx, [(p, t) for p, t, _i in groups])
     for (pre, terms, info), bad in zip(groups, results):
